@@ -69,7 +69,7 @@ def dimSizeBreach (shape : List Nat) (d : DimDesc α) : List Breach :=
     match d.kind with
     | .range ticks _ => when (ticks.length != n) .ticks
     | .set labels => when (labels != 0 && labels != n) .labels
-    | .frame rows => when (rows != n) .rows
+    | .frame rows _ => when (rows != n) .rows
     | .sampled _ _ _ => []
 
 def arrayBreaches (a : ArrayDesc α) : List Breach :=
@@ -92,7 +92,7 @@ def dimBreaches (d : DimDesc α) : List Breach :=
     when (d.index = 0) .badIndex ++ when (!si.passes fun x => decide (Scalar.zero < x)) .interval ++
     when (unitBreach unit isAtomicUnit) .dimUnit
   | .set _ => when (d.index = 0) .badIndex
-  | .frame _ => []
+  | .frame _ _ => []
 
 /-- a tag unit against the unit of the dimension it applies to: both given and not convertible -/
 def pairBreach (tu du : String) : Bool :=
